@@ -227,38 +227,63 @@ ARCHIVED = ("EpsMOEA", "EpsNSGAII", "OMOPSO", "CMAES", "NSGAII")   # NSGAII only
 ALG_TAG = {"NSGAII": 0, "EpsNSGAII": 1, "NSGAIII": 2, "SPEA2": 3, "GDE3": 4, "GA": 5, "ES": 6}
 
 
-def build_lattice(cfg):
-    """cfg: name, nobjs, con, dirs, pop, levels, eps, seed, archive, k"""
+def build_lattice(cfg, _problem=None, _generator=None):
+    """cfg: name, nobjs, con, dirs, pop, levels, eps, seed, archive, k, inject={"k", "source"}"""
     from platypus import (NSGAII, NSGAIII, SPEA2, GDE3, EpsNSGAII, EpsMOEA, GeneticAlgorithm, EvolutionaryStrategy,
                           OMOPSO, CMAES, Archive)
     from platypus.extensions import AdaptiveTimeContinuationExtension
     name = cfg["name"]
-    random.seed(cfg["seed"])
-    p = lattice_problem(cfg["nobjs"], 1 if cfg["con"] else 0, cfg["dirs"], cfg["levels"])
+    if _problem is None:
+        random.seed(cfg["seed"])
+    p = _problem if _problem is not None else lattice_problem(cfg["nobjs"], 1 if cfg["con"] else 0, cfg["dirs"], cfg["levels"])
     pop = cfg["pop"]
     eps = cfg.get("eps") or [2.0]
+    if cfg.get("inject") and not _generator:
+        # warm start: InjectedPopulation holding k ALREADY EVALUATED solutions
+        #   source "prev": the population of a previous short cold run of the same algorithm on the same problem object,
+        #   source "hand": hand-made solutions (random variables, evaluated here)
+        from platypus import InjectedPopulation, Solution
+        k = cfg["inject"]["k"]
+        sols = []
+        if cfg["inject"]["source"] == "prev":
+            c0 = dict(cfg)
+            c0.pop("inject")
+            prev = build_lattice(c0, _problem=p)
+            prev.run(max(1, 3 * pop))
+            sols = [s for s in population_of(prev) if s.evaluated][:k]
+            random.seed(cfg["seed"] + 17)
+        while len(sols) < k:
+            s = Solution(p)
+            s.variables[:] = [t.rand() for t in p.types]
+            s.evaluate()
+            sols.append(s)
+        gen = InjectedPopulation(sols)
+        alg = build_lattice(cfg, _problem=p, _generator=gen)
+        alg.verif_injected = sols
+        return alg
+    gkw = {"generator": _generator} if _generator is not None else {}
     if name == "GA":
-        alg = GeneticAlgorithm(p, population_size=pop, offspring_size=cfg.get("off", pop))
+        alg = GeneticAlgorithm(p, population_size=pop, offspring_size=cfg.get("off", pop), **gkw)
     elif name == "ES":
-        alg = EvolutionaryStrategy(p, population_size=pop, offspring_size=cfg.get("off", pop))
+        alg = EvolutionaryStrategy(p, population_size=pop, offspring_size=cfg.get("off", pop), **gkw)
     elif name == "NSGAII":
-        alg = NSGAII(p, population_size=pop, archive=Archive() if cfg.get("archive") else None)
+        alg = NSGAII(p, population_size=pop, archive=Archive() if cfg.get("archive") else None, **gkw)
     elif name == "NSGAIII":
-        alg = NSGAIII(p, divisions_outer=pop)
+        alg = NSGAIII(p, divisions_outer=pop, **gkw)
     elif name == "SPEA2":
-        alg = SPEA2(p, population_size=pop, k=cfg.get("k", 1))
+        alg = SPEA2(p, population_size=pop, k=cfg.get("k", 1), **gkw)
     elif name == "GDE3":
-        alg = GDE3(p, population_size=pop)
+        alg = GDE3(p, population_size=pop, **gkw)
     elif name == "EpsNSGAII":
-        alg = EpsNSGAII(p, eps, population_size=pop)
+        alg = EpsNSGAII(p, eps, population_size=pop, **gkw)
         w = cfg.get("window")
         if w:
             alg.remove_extension(AdaptiveTimeContinuationExtension)
             alg.add_extension(AdaptiveTimeContinuationExtension(window_size=w, max_window_size=2 * w, min_population_size=2, max_population_size=10))
     elif name == "EpsMOEA":
-        alg = EpsMOEA(p, eps, population_size=pop)
+        alg = EpsMOEA(p, eps, population_size=pop, **gkw)
     elif name == "OMOPSO":
-        alg = OMOPSO(p, eps, swarm_size=pop, leader_size=max(2, pop), max_iterations=20)
+        alg = OMOPSO(p, eps, swarm_size=pop, leader_size=max(2, pop), max_iterations=20, **gkw)
     elif name == "CMAES":
         alg = CMAES(p, offspring_size=max(2, pop), epsilons=(eps if cfg.get("eps") else None))
     else:
@@ -275,7 +300,7 @@ def build_registry(cfg):
     if cfg["name"] == "SPEA2" and "k" in cfg:
         kw["k"] = cfg["k"]
     alg, info = algos.build(cfg["name"], vtype="real", pop=cfg["pop"], seed=cfg["seed"], constrained=bool(cfg["con"]),
-                            nobjs=cfg["nobjs"], window=cfg.get("window"), **kw)
+                            nobjs=cfg["nobjs"], window=cfg.get("window"), inject=(cfg.get("inject") or {}).get("k", 0), **kw)
     return alg
 
 
@@ -394,6 +419,7 @@ def observe(cfg, steps):
         finally:
             cur["in_iter"] = False
         s["survivors"] = population_of(alg)
+        s["n"] = getattr(alg, "population_size", None) or getattr(alg, "swarm_size", None) or getattr(alg, "offspring_size", None)
         s["fit_after"] = getattr(alg, "fittest", None)
     alg.initialize = initialize
 
@@ -515,18 +541,27 @@ def oracle_run(ctx, cfg, obs, report=True):
     out = []
     cmp = fresh_pareto()
 
-    def viol(key, what, t):
-        out.append((key, "%s %s step %d: %s" % (name, cfg_label(cfg), t, what), t))
+    pre = [""]
 
-    # --- elitism, per iterate() ---
+    def viol(key, what, t):
+        out.append((key, "%s %s step %d: %s%s" % (name, cfg_label(cfg), t, pre[0], what), t))
+
+    # --- elitism, at every step boundary after the first one (the boundary after initialisation is the baseline):
+    #     parents = the population held at the previous boundary, offspring = everything evaluated during the step,
+    #     survivors = the population the step left (before extensions such as eps-NSGA-II's restart run).
+    #     A step() that runs initialize() a second time is judged like any other step.
     if name in ELITIST:
         for t, s in enumerate(obs.steps):
-            if s["kind"] != "iter":
+            if t == 0 or s["kind"] is None:
                 continue
+            parents = obs.steps[t - 1]["pop_after_step"]
             off = [x for b in s["batches"] for x in b]
-            U = off + s["parents"]
+            pid = set(id(x) for x in parents)
+            off = [x for x in off if id(x) not in pid]
+            U = off + parents
             surv = s["survivors"]
             n = s["n"]
+            pre[0] = "step() ran initialize() again although the algorithm already held a population; " if s["kind"] == "init" else ""
             F0 = front_of(U, cmp)
             ids = set(id(x) for x in surv)
             f0ids = set(id(x) for x in F0)
@@ -547,6 +582,7 @@ def oracle_run(ctx, cfg, obs, report=True):
                     viol("%s-dominated-survivor-while-front-overflows" % name.lower(),
                          "the non-dominated front has %d > %d members but a dominated solution survived: %s; merged population: %s; survivors: %s"
                          % (len(F0), n, desc(bad[0]), [desc(x) for x in U], [desc(x) for x in surv]), t)
+    pre[0] = ""
     # --- archives: results only improve, members mutually non-dominated ---
     arch = archive_of(obs.alg)
     if arch is not None:
@@ -624,8 +660,9 @@ def oracle_run(ctx, cfg, obs, report=True):
 
 
 def cfg_label(cfg):
-    return "[%s objs=%d con=%d pop=%d seed=%d%s]" % (cfg["problem"], cfg["nobjs"], int(bool(cfg["con"])), cfg["pop"], cfg["seed"],
-                                                     " max=%s" % "".join("1" if d else "0" for d in cfg["dirs"]) if any(cfg["dirs"]) else "")
+    return "[%s objs=%d con=%d pop=%d seed=%d%s%s]" % (cfg["problem"], cfg["nobjs"], int(bool(cfg["con"])), cfg["pop"], cfg["seed"],
+                                                       " max=%s" % "".join("1" if d else "0" for d in cfg["dirs"]) if any(cfg["dirs"]) else "",
+                                                       " warm-start k=%d(%s)" % (cfg["inject"]["k"], cfg["inject"]["source"]) if cfg.get("inject") else "")
 
 
 # ----------------------------------------------------------------------------
@@ -840,6 +877,21 @@ def gen_configs(ctx):
         # ES again: the first generation after an UNSORTED initial population is where a best parent can be dropped
         for pop in (4, 5, 6, 7, 8, 9, 10, 12):
             add("ES", "lattice" if rng.random() < 0.5 else "registry", 1, rng.random() < 0.3, pop, [False])
+        # warm starts: the initial population is injected ALREADY EVALUATED (k <, =, > population size), taken from a previous
+        # short run or hand-made; the boundary after initialisation is the baseline for every later one
+        for name, pop in (("GA", 4), ("ES", 5), ("NSGAII", 5), ("SPEA2", 4), ("GDE3", 5), ("EpsNSGAII", 4), ("EpsMOEA", 4), ("OMOPSO", 4)):
+            nobjs = 1 if name in SINGLE else rng.choice([2, 3])
+            for rel in (-2, 0, 3):
+                kw = {"eps": eps_for(nobjs)} if name in ("EpsNSGAII", "EpsMOEA", "OMOPSO") else {}
+                add(name, "lattice", nobjs, rng.random() < 0.3, pop, None, inject={"k": max(1, pop + rel), "source": rng.choice(["prev", "hand"])},
+                    steps=6, **kw)
+        for div, size in ((3, 4), (2, 4)):          # NSGA-III: 2 objectives / 3 divisions and 3 objectives / 2 divisions -> 4 and 8
+            nobjs = 2 if div == 3 else 3
+            size = 4 if nobjs == 2 else 8
+            for rel in (-1, 0, 2):
+                add("NSGAIII", "lattice", nobjs, False, div, None, inject={"k": size + rel, "source": rng.choice(["prev", "hand"])}, steps=6)
+        for name, pop in (("GA", 5), ("ES", 4), ("NSGAII", 4), ("SPEA2", 5), ("GDE3", 4)):      # registry (float) problems: algos.build(inject=k)
+            add(name, "registry", 1 if name in SINGLE else 2, rng.random() < 0.5, pop, None, inject={"k": pop + rng.choice([0, 0, 2]), "source": "hand"}, steps=6)
         # float-valued runs of the elitist algorithms: oracle only (plus NSGA-III / Pareto-archive correspondence)
         for name, pop in (("NSGAII", 6), ("SPEA2", 5), ("GDE3", 6), ("EpsNSGAII", 6), ("EpsMOEA", 5), ("OMOPSO", 5)):
             add(name, "registry", rng.choice([2, 3, 5]), rng.random() < 0.5, pop)
@@ -848,8 +900,11 @@ def gen_configs(ctx):
 
 # ----------------------------------------------------------------------------
 def run_one(ctx, cfg, steps, stats, lits, want_cases=True):
+    steps = cfg.get("steps", steps)
     obs = observe(cfg, steps)
     ctx.count(len(obs.steps))
+    if obs.steps and obs.steps[0].get("n"):
+        cfg["_n0"] = obs.steps[0]["n"]          # the population size the object really uses (NSGA-III derives it)
     if obs.error:
         ctx.violation("run-raised", "%s %s raised / hung: %s" % (cfg["name"], cfg_label(cfg), obs.error[-600:]),
                       {"kind": "run", "cfg": cfg, "steps": steps})
@@ -914,10 +969,20 @@ def run(ctx):
         "objectives": sorted(set(c["nobjs"] for c in cfgs)), "population_sizes": sorted(set(c["pop"] for c in cfgs)),
         "constrained_runs": sum(1 for c in cfgs if c["con"]), "runs_with_maximised_objective": sum(1 for c in cfgs if any(c["dirs"])),
         "lattice_runs": sum(1 for c in cfgs if c["problem"] == "lattice"), "float_runs": sum(1 for c in cfgs if c["problem"] != "lattice")}
+    warm = {"k<n": 0, "k=n": 0, "k>n": 0, "from_previous_run": 0, "hand_made": 0}
+    for c in cfgs:
+        if c.get("inject"):
+            n0 = c.get("_n0") or c["pop"]
+            k = c["inject"]["k"]
+            warm["k<n" if k < n0 else ("k=n" if k == n0 else "k>n")] += 1
+            warm["from_previous_run" if c["inject"]["source"] == "prev" else "hand_made"] += 1
+    ctx.coverage["warm_start_runs"] = warm
     ctx.coverage["step_statistics"] = stats
     ctx.rule = ("real runs of NSGAII, EpsNSGAII, NSGAIII, SPEA2, GDE3, EpsMOEA, GA, ES, OMOPSO, CMAES, NSGAII(archive=Archive()) on integer-valued lattice problems "
                 "(3 real variables cut into 4/6/8 cells; 1-5 objectives, some maximised, optional constraint) and on the float-valued registry problems, "
-                "population sizes 1-12 incl. odd and minimal ones, 15 (quick) / 40 (thorough) steps each, all randomness from VERIF_SEED; evaluations = step() calls; "
+                "population sizes 1-12 incl. odd and minimal ones, 15 (quick) / 40 (thorough) steps each, plus warm starts (generator=InjectedPopulation of k already "
+                "evaluated solutions, k <, =, > population size, taken from a previous short run or hand-made; 6 steps; the boundary after initialisation is the baseline and "
+                "every later boundary is judged against the population held at the previous one), all randomness from VERIF_SEED; evaluations = step() calls; "
                 "a step is non-trivial when the merged population has both dominated and non-dominated members (elitist algorithms), when the merged population has "
                 "at least two different (violation, objective) keys (GA/ES), or when the archive rejected or evicted something; distinct by algorithm, size and the full "
                 "list of objective vectors")
